@@ -81,6 +81,75 @@ CHECKS.update({
     ),
 })
 
+CHECKS.update({
+    "C02": dict(
+        category="model_checking",
+        text="TLC checks an independent statement of the typing table, short-circuiting, left-to-right single evaluation and the precedence printer on ALL expression trees of "
+             "depth <= 2 over the 16 operators with logging probe leaves, and prints each with the text its precedence model prescribes (minimal / full parentheses, word spellings) "
+             "and the prescribed value, error and call log; every row is evaluated by the real parser + evaluator (parsed tree, value, error-ness, probe log compared); deeper "
+             "random trees inside programs are replayed and trace-validated.",
+        design_ref="DESIGN.md section 6 (C02)", note=CORE_NOTE + " Numeric accuracy on non-dyadic doubles is not decided (TLC has no reals).",
+        technique="TLA+ exhaustive tree enumeration with invariants (TLC) + row replay + trace validation",
+    ),
+    "C06": dict(
+        category="model_checking",
+        text="The runner specification carries the fault table (ill-typed operations, unknown variables / nodes / functions / commands, wrong argument counts and types, failing host code, "
+             "null, value-less functions as values, out-of-domain and non-finite / beyond-int64 arguments of dice and random_range); TLC enumerates every path of generated faulty "
+             "programs and one built-in call per (argument classes x statement kind x nesting position); all behaviours are replayed - a panic is a violation anywhere, a fault must "
+             "surface as an error at that call, the runner must stay usable - and random walks are trace-validated.",
+        design_ref="DESIGN.md section 6 (C06)", note=CORE_NOTE + " For arguments the property only lists as values to try (non-integers, spans that overflow) only 'no panic' is judged.",
+        technique="TLA+ fault table in the runner spec (TLC) + behaviour replay + trace validation",
+    ),
+    "C08": dict(
+        category="model_checking",
+        text="TLC checks LayoutInvariant on the indentation specification: for every nesting profile and every layout of it (arbitrary widths per level, blank / comment lines of any "
+             "width anywhere) the emitted INDENT/DEDENT/LINE structure is the canonical one; for generated programs k+1 renderings are parsed by the real parser: dialogue == generator AST "
+             "and reflect.DeepEqual to the canonical rendering's; the real lexer's token streams are validated against the indentation spec; runs under random layouts are trace-validated "
+             "against the same case.",
+        design_ref="DESIGN.md section 6 (C08)", note=CORE_NOTE + " Layout dimensions are those the harness renders (listed in the evidence rule).",
+        technique="TLA+ invariant on the indentation model (TLC) + AST equality across renderings + token / run trace validation",
+    ),
+    "C09": dict(
+        category="exploration",
+        text="The model states that a runner's random stream depends on its seed only (SameSeedSameRun, NonInterference under every interleaving with an unrelated runner, clock ticks and "
+             "the process-wide source); each generated case is run four times (first, again in process, disturbed by other runners and the global math/rand, in a child process) and a "
+             "trace specification that learns the first run requires identical elements, errors, variables and drawn values and checks every draw's range contract.",
+        design_ref="DESIGN.md section 6 (C09)",
+        note="Pairs of executions are sampled; child processes are the same binary on the same machine; generators stay in-domain (n >= 1, a <= b).",
+        technique="TLA+ model of per-runner streams (TLC) + trace validation with a learned oracle",
+    ),
+    "C16": dict(
+        category="model_checking",
+        text="The registration / call decision table over an abstract signature algebra (parameter classes incl. named types, variadic tails, result shapes; functions and commands) x argument "
+             "lists is a TLA+ specification; TLC checks an implementation-shaped formulation against it on every row and prints every row, which is replayed on the real bridge with "
+             "reflect.FuncOf/MakeFunc probes called from scripts (refused/accepted, exact Go types and values received, value or error seen, no panic); random signatures and calls are "
+             "judged by a trace specification using the same table.",
+        design_ref="DESIGN.md section 6 (C16), appendix H",
+        note="Enumeration pruned by symmetry (families listed in MC_Bridge.tla); named-type and uint-family signatures are 'refused, or accepted and faithful'; rows run in worker "
+             "processes because a panic in the bridge's goroutine cannot be recovered in-process.",
+        technique="TLA+ decision table (TLC) + exhaustive row replay + trace validation",
+    ),
+    "C18": dict(
+        category="exploration",
+        text="Rounds of 2-16 goroutines released together each parse and drive their own runner under the race detector; every run is repeated alone with the same seed and must give the "
+             "identical event list, and every concurrently recorded trace is validated against the runner specification (each runner's projection is the behaviour of its own case).",
+        design_ref="DESIGN.md section 6 (C18)",
+        note="Schedules are sampled; data-race freedom is observed by Go's race detector on the schedules that occurred, not decided by TLC (non-interference of runners is by construction in the "
+             "specification, which indexes all state by runner).",
+        technique="trace validation of concurrently recorded runs (TLA+ trace spec) + race detector + solo re-run equality",
+    ),
+    "C19": dict(
+        category="exploration",
+        text="Each sentence of the property is a relation over exact rationals in a TLA+ specification; TLC checks on a grid that each relation has exactly one solution (two at ties) and that "
+             "closed forms shaped like base_functions.go satisfy them; evaluations through <<call capture(f($x))>> with x supplied through the storer are judged by a trace specification "
+             "evaluating the relation on each (x crosses as exact limbs).",
+        design_ref="DESIGN.md section 6 (C19)",
+        note="Inputs are sampled (an exhaustive small-grid sweep opens every run); decided window |x| < 2^52 with up to 28 fractional bits; full-mantissa doubles are covered only by the "
+             "number(string(x)) round trip compared as opaque bit tokens.",
+        technique="TLA+ relational contracts (TLC) + trace validation",
+    ),
+})
+
 NOT_YET = "check not built yet in this session (work in progress; see DESIGN.md build order)"
 
 
